@@ -3,6 +3,7 @@ package main
 // Calls: builtins, contracts (checked or trusted), inlining, sinks; maps; defers; channels.
 
 import (
+	"os"
 	"fmt"
 	"go/types"
 	"math/big"
@@ -114,10 +115,40 @@ func (g *Gen) call(fr *frame, st *State, site ssa.Instruction, cc *ssa.CallCommo
 		if g.fc != nil && g.fc.OpaqueCalls {
 			return g.opaqueCall(fr, st, key, rt)
 		}
+		// a small helper of the same package without a contract (for instance the result of an "extract function"
+		// refactoring of a function under contract) is executed in place rather than
+		// reported as a generator error (functions under `opaque_calls` keep treating every uncontracted callee as opaque,
+		// so nothing changes for them)
+		if callee != nil && len(callee.Blocks) > 0 && os.Getenv("GOVC_NO_SMALL_INLINE") == "" && callee.Pkg == fr.fn.Pkg && callee.Parent() == nil && fr.depth < 2 && g.smallHelper(callee, fr) {
+			g.note("small same-package helper without a contract executed in place: " + shortKey(key))
+			return g.inlineCall(fr, st, callee, args, bindings, rt)
+		}
 		g.errorf("%s: uncontracted call to %s", funcKey(fr.fn), what)
 		return g.freshValue(st, "r."+shortName(key), rt)
 	}
 	return g.applyContract(fr, st, fc, key, callee, cc, args, rt)
+}
+
+// smallHelper: at most 150 naive-form instructions (roughly ten source lines), no loops, no defers/go/select, not already being executed (recursion), and it
+// calls nothing but builtins, contracted functions, sinks or other small helpers (checked when those are reached).
+func (g *Gen) smallHelper(fn *ssa.Function, fr *frame) bool {
+	if fn == fr.fn || fn == g.fn {
+		return false
+	}
+	n := 0
+	for _, b := range fn.Blocks {
+		for _, in := range b.Instrs {
+			n++
+			switch in.(type) {
+			case *ssa.Defer, *ssa.Go, *ssa.Select: // (the naive form keeps a RunDefers before every return; without a Defer it does nothing)
+				return false
+			}
+		}
+	}
+	if n > 150 || len(findLoops(fn)) > 0 {
+		return false
+	}
+	return true
 }
 
 // atCallClauses poses the at-call clauses written for callee name `name` at this call site.
